@@ -544,3 +544,66 @@ func TestVerif_C17C06_CaptureOfEOF(t *testing.T) {
 	}
 	res.emit(t)
 }
+
+// ---- C04 / C15: what ParseBytes and LexBytes return does not depend on what the caller does with the slice afterwards ----
+
+type r10KV struct {
+	Pos    lexer.Position
+	Tokens []lexer.Token
+	Key    string `@Ident "="`
+	Value  string `@( Ident | Int | String )`
+}
+
+func TestVerif_C04C15_BytesNotRetained(t *testing.T) {
+	res := &xResult{Check: "the caller's byte slice is not retained", Property: "C04 C15", Exhaustive: true,
+		Bound: "3 parsers (default lexer; stateful lexer without mappers; stateful lexer with Unquote) x 4 inputs: ParseBytes, then the slice is overwritten and reused for the next input; the definitions' LexBytes where offered",
+		Rule: "(parser, input) pairs; all non-trivial"}
+	st := lexer.MustSimple([]lexer.SimpleRule{{Name: "Ident", Pattern: `[a-z]+`}, {Name: "Int", Pattern: `\d+`}, {Name: "String", Pattern: `"[^"]*"`}, {Name: "Punct", Pattern: `=`}, {Name: "whitespace", Pattern: `\s+`}})
+	parsers := map[string][]participle.Option{"default": nil, "stateful": {participle.Lexer(st)}, "stateful+Unquote": {participle.Lexer(st), participle.Unquote("String")}}
+	inputs := []string{`alpha = one`, `omega = "end"`, `k = 42`, `zz = yy`}
+	for name, opts := range parsers {
+		p, err := participle.Build[r10KV](opts...)
+		if err != nil {
+			res.violate("%s: Build: %v", name, err)
+			continue
+		}
+		buf := make([]byte, 0, 64)
+		var kept []*r10KV
+		var want []string
+		for _, in := range inputs {
+			res.Evaluations++
+			res.Distinct++
+			ref, rerr := p.ParseString("f", in)
+			buf = append(buf[:0], in...)
+			got, err := p.ParseBytes("f", buf)
+			if (err == nil) != (rerr == nil) {
+				res.violate("%s: %q: ParseBytes gives %v, ParseString %v", name, in, err, rerr)
+				continue
+			}
+			kept = append(kept, got)
+			want = append(want, fmt.Sprintf("%+v", ref))
+			for i := range buf {
+				buf[i] = '#'
+			}
+		}
+		for i, g := range kept {
+			if s := fmt.Sprintf("%+v", g); s != want[i] {
+				res.violate("%s: the result of ParseBytes(%q) reads %s after the caller reused its buffer; ParseString gives %s", name, inputs[i], s, want[i])
+			}
+		}
+		if bd, ok := p.Lexer().(lexer.BytesDefinition); ok {
+			b := []byte(inputs[0])
+			lx, err := bd.LexBytes("f", b)
+			if err == nil {
+				first, _ := lx.Next()
+				for i := range b {
+					b[i] = '#'
+				}
+				if first.Value != "alpha" {
+					res.violate("%s: the first token of LexBytes(%q) reads %q after the caller overwrote its slice", name, inputs[0], first.Value)
+				}
+			}
+		}
+	}
+	res.emit(t)
+}
